@@ -11,6 +11,7 @@ DOC = {
                    'derive the time stamp by the same chain of conversions (R3); the hasher looks up and stores under the same key and metadata, captured before the file is read, and '
                    'stores only after a successful computation (R4).',
     'rules': {
+        'C12.M': __import__('fcverif.rules.common', fromlist=['MANDATORY_TEXT']).MANDATORY_TEXT,
         'C12.R1': 'Key = {file_id, chunk_pos, chunk_len} covering all FileChunk fields; tree id formatted from algorithm and transform command; FileHasher::new_cached passes its own algorithm and transform.command_str',
         'C12.R2': 'HashCache::get: Some only if modified_timestamp_ms == current and file_len == current (equality tests, both guarding the hit)',
         'C12.R3': 'put and get compute the time stamp with the same conversion chain (modified -> duration_since(UNIX_EPOCH) -> as_millis)',
@@ -29,6 +30,8 @@ def run(ctx):
     r2(ctx)
     r3(ctx)
     r4(ctx)
+    from .common import run_mandatory
+    run_mandatory(ctx, 'C12')
 
 
 def r1(ctx):
